@@ -100,8 +100,8 @@ CLAIMS = {
     "C13": ("proof", "Coq proof by induction on fuel (history preserved through negamax and the root loop) + repeated real searches",
             "Proof on the model: every search that returns gives back the history it was given (any limit, window, table), the position is "
             "passed by value, and the model is a function of its inputs. That the Rust has no hidden input is measured: state snapshots and "
-            "each search executed twice in separate processes, incl. a node-budget sweep on middlegame roots.", "DESIGN.md section 6 C13",
-            "modulo fuel: statements are about searches that return"),
+            "each search executed twice in separate processes, incl. a node-budget sweep on middlegame roots. A result, once defined, is the same for every larger fuel (C13_result_does_not_depend_on_fuel).", "DESIGN.md section 6 C13",
+            "modulo fuel: statements are about searches that return; the fuel only bounds the recursion depth (monotonicity proved)"),
     "C14": ("proof", "Coq proof on the root loop (iterations in order, node/depth limit clauses, bestmove = last pv) + differential; time = measurement",
             "Proof on the model for: iterations reported consecutively from 1, nothing deeper than a depth limit, no iteration >= 2 reported at or "
             "beyond a node limit, answer = first move of the last pv; every reported score within [-MATE, MATE] (strictly inside +-INF) and the table left "
@@ -129,8 +129,9 @@ CLAIMS = {
             "size_of::<TTEntry>() = 24 is measured by the harness and compared"),
     "C19": ("proof", "Coq proof: generic fail-soft alpha-beta theorem instantiated with the engine's evaluation/captures/ordering + differential vs exact values",
             "Full proof on the model: for every position, window and fuel on which both finish, qsearch returns the exact capture-tree value inside "
-            "the window, an upper bound at or below alpha, a lower bound at or above beta; full window exact; ordering is a permutation.",
-            "DESIGN.md section 6 C19", "modulo fuel; eval/legal_captures/makemove of the model are tied to the code by C17/C08/C02 runs"),
+            "the window, an upper bound at or below alpha, a lower bound at or above beta; full window exact; ordering is a permutation. The fuel is no hypothesis: every capture removes "
+            "a man, so on a position satisfying the invariant qsearch terminates with any fuel above 32 and its result does not depend on the fuel (C19_qsearch_sound_total).",
+            "DESIGN.md section 6 C19 and section 9", "eval/legal_captures/makemove of the model are tied to the code by C17/C08/C02 runs"),
     "C20": ("proof", "Coq proof over exact rationals that features and scores lie in [0,1] under the consistency invariant + the real style.py run on generated games",
             "PARTIAL proof. Proved: under SInv (the tool's is_valid conditions plus histogram sums, threats <= moves, the early-pawn-push bound) no "
             "feature divides by zero and the three scores lie in [0,1]. Measured, not proved: that analyse_game establishes SInv (premises evaluated "
